@@ -32,7 +32,7 @@ def mkServer (ws : List String) : World :=
     maxChunk := if hasArg ws "maxk" then natOf (argOf ws "maxk") else 1048576,
     translateHead := argOf ws "translate" "1" == "1" }
   let policy := match argOf ws "policy" "sync" with
-    | "deferred" => Policy.deferred | "router" => .router | "none" => .none | _ => .sync
+    | "deferred" => Policy.deferred | "router" => .router | "none" => .none | "disc" => .disc | _ => .sync
   let filter := match argOf ws "filter" "" with
     | "none" => 1 | "even" => 2 | _ => 0
   { opts := { flavour := if argOf ws "flavour" "tcp" == "ssl" then .ssl else .tcp, policy := policy,
@@ -40,7 +40,11 @@ def mkServer (ws : List String) : World :=
               contReject := argOf ws "conth" "0" == "2",
               invh := argOf ws "invh" "0" == "1", senth := argOf ws "senth" "0" == "1",
               trace := argOf ws "trace" "0" == "1", autodisc := argOf ws "autodisc" "0" == "1",
-              filter := filter, chunkedResp := argOf ws "resp" "fixed" == "chunked", cfg := cfg },
+              filter := filter, chunkedResp := argOf ws "resp" "fixed" == "chunked",
+              onConnDisc := argOf ws "onconn" "" == "disc",
+              ansHs := (unhex (argOf ws "anshs" "-")).getD [],
+              ansOvl := (match argOf ws "ansovl" "body" with | "nobody" => 0 | "bufs" => 2 | _ => 1),
+              cfg := cfg },
     haveServer := true, acceptorOpen := true, out := ["ok port=*"] }
 
 def opAccept (w : World) (ws : List String) : World :=
